@@ -190,6 +190,11 @@ func (e *Env) call(n *ast.CallExpr) Value {
 					if sf, ok := e.x.U.Specs[p.Path()+"."+sel.Sel.Name]; ok {
 						return e.x.callSpec(e, sf, n)
 					}
+					if r, ok := e.x.U.SameAs[p.Path()]; ok {
+						if sf, ok := e.x.U.Specs[r+"."+sel.Sel.Name]; ok {
+							return e.x.callSpec(e, sf, n)
+						}
+					}
 					if tn, ok := p.Scope().Lookup(sel.Sel.Name).(*types.TypeName); ok {
 						return e.convertExpr(e.expr(n.Args[0]), tn.Type(), n)
 					}
@@ -420,6 +425,9 @@ func (e *Env) copyBuiltin(n *ast.CallExpr) Value {
 func (x *Exec) copyRange(e *Env, d, s SliceV, cnt *Term) {
 	darr := x.memArr(e.st, d.Alloc, d.path)
 	sarr := x.memArr(e.st, s.Alloc, s.path)
+	if _, ok := cnt.Int64(); !ok {
+		cnt = x.simplifyWithPC(e.st, cnt)
+	}
 	if c, ok := cnt.Int64(); ok && c <= 64 {
 		arr := darr.T
 		for i := int64(0); i < c; i++ {
@@ -451,8 +459,34 @@ func (e *Env) contractForm(name string, n *ast.CallExpr) (Value, bool) {
 		return e2.expr(n.Args[0]), true
 	case "implies":
 		a := e.boolTerm(e.expr(n.Args[0]))
+		if a.IsFalse() {
+			return Scalar{TrueT, boolT}, true
+		}
 		b := e.boolTerm(e.expr(n.Args[1]))
 		return Scalar{Implies(a, b), boolT}, true
+	case "typeis":
+		// typeis(v, T): the dynamic (concrete) type of an interface value, decided per path
+		v := e.expr(n.Args[0])
+		want := exprText(n.Args[1])
+		got := ""
+		switch c := v.(type) {
+		case StructV:
+			got = types.TypeString(c.Typ, func(*types.Package) string { return "" })
+		case PtrV:
+			if c.Typ != nil {
+				got = types.TypeString(c.Typ, func(*types.Package) string { return "" })
+			}
+		case SliceV:
+			if c.Typ != nil {
+				got = types.TypeString(c.Typ, func(*types.Package) string { return "" })
+			}
+		case AbsV:
+			return Scalar{FalseT, boolT}, true
+		}
+		if i := strings.LastIndex(want, "."); i >= 0 {
+			want = want[i+1:]
+		}
+		return Scalar{BoolC(got == want || got == "*"+want), boolT}, true
 	case "iff":
 		a := e.boolTerm(e.expr(n.Args[0]))
 		b := e.boolTerm(e.expr(n.Args[1]))
@@ -520,6 +554,43 @@ func (e *Env) contractForm(name string, n *ast.CallExpr) (Value, bool) {
 	case "mathint":
 		v := e.expr(n.Args[0])
 		return Scalar{e.toIntTerm(v), mathIntType}, true
+	case "mkarray":
+		// mkarray(n, k, elem): the n-element array whose k-th element is elem (n a constant)
+		cnt, ok := e.toIntTerm(e.expr(n.Args[0])).Int64()
+		id, ok2 := n.Args[1].(*ast.Ident)
+		if !ok || !ok2 || cnt > 4096 {
+			unsupported("%s: mkarray(n, k, elem) needs a constant n and an identifier k", e.where)
+		}
+		var arr *Term
+		var et types.Type
+		for i := int64(0); i < cnt; i++ {
+			sub := e.sub(map[string]Value{id.Name: Scalar{IntC(i), intT}})
+			v, isS := sub.expr(n.Args[2]).(Scalar)
+			if !isS {
+				unsupported("%s: mkarray element must be a scalar", e.where)
+			}
+			if arr == nil {
+				et = v.Typ
+				var z *Term
+				switch v.T.S.K {
+				case KBV:
+					z = BVCi(0, v.T.S.W)
+				case KBool:
+					z = FalseT
+				default:
+					z = IntC(0)
+				}
+				arr = ConstArr(z)
+			}
+			arr = Store(arr, IntC(i), v.T)
+		}
+		return ArrayV{T: arr, N: cnt, Elem: et, Typ: types.NewArray(et, cnt)}, true
+	case "blake2b256", "sha256", "sha512":
+		outLen := 32
+		if name == "sha512" {
+			outLen = 64
+		}
+		return e.x.hashBytes(e, name, outLen, e.expr(n.Args[0]), types.NewArray(byteT, int64(outLen))), true
 	case "result":
 		return nil, false
 	}
@@ -542,6 +613,12 @@ func (e *Env) quantifier(kind string, n *ast.CallExpr) Value {
 	hi := e.toIntTerm(e.expr(n.Args[2]))
 	l, okL := lo.Int64()
 	h, okH := hi.Int64()
+	if !okL {
+		l, okL = e.x.simplifyWithPC(e.st, lo).Int64()
+	}
+	if !okH {
+		h, okH = e.x.simplifyWithPC(e.st, hi).Int64()
+	}
 	if okL && okH && h-l <= 300 {
 		var cs []*Term
 		for i := l; i < h; i++ {
@@ -569,6 +646,11 @@ func (x *Exec) findSpec(pkg *packages.Package, name string) *SpecFn {
 	if pkg != nil {
 		if sf, ok := x.U.Specs[pkg.PkgPath+"."+name]; ok {
 			return sf
+		}
+		if r, ok := x.U.SameAs[pkg.PkgPath]; ok {
+			if sf, ok := x.U.Specs[r+"."+name]; ok {
+				return sf
+			}
 		}
 	}
 	return nil
@@ -780,6 +862,14 @@ func (x *Exec) callFunc(e *Env, callee *types.Func, recvExpr ast.Expr, n *ast.Ca
 			return v
 		}
 		rv := e.expr(recvExpr)
+		if _, isIface := sig.Recv().Type().Underlying().(*types.Interface); isIface {
+			if conc := concreteTypeOf(rv); conc != nil {
+				if m := lookupMethod(conc, callee.Name()); m != nil {
+					callee = m
+					sig = m.Type().(*types.Signature)
+				}
+			}
+		}
 		if ev, isErr := rv.(ErrV); isErr {
 			switch callee.Name() {
 			case "Unwrap":
@@ -935,6 +1025,11 @@ func (x *Exec) modularCall(e *Env, callee *types.Func, c *Contract, args []Value
 		v := x.havocNamed(e, rs.At(i).Type(), short+"."+nm, hasName(c.BVNames, nm))
 		results = append(results, v)
 		ce.names[nm] = v
+	}
+	for _, lc := range c.Lets {
+		if t := x.letTypeIn(lc, callee); t != nil {
+			ce.names[lc.Name] = x.havoc(e, t, short+".ghost."+lc.Name)
+		}
 	}
 	ce.names["#old"] = namesBox{ce.names}
 	for _, en := range c.Ensures {
@@ -1222,4 +1317,32 @@ func mentionsVar(t *Term, name string) bool {
 		}
 	}
 	return false
+}
+
+func concreteTypeOf(v Value) types.Type {
+	switch c := v.(type) {
+	case StructV:
+		return c.Typ
+	case PtrV:
+		return c.Typ
+	case SliceV:
+		return c.Typ
+	case Scalar:
+		if _, ok := c.Typ.(*types.Named); ok {
+			return c.Typ
+		}
+	}
+	return nil
+}
+
+func lookupMethod(t types.Type, name string) *types.Func {
+	for _, tt := range []types.Type{t, types.NewPointer(t)} {
+		ms := types.NewMethodSet(tt)
+		for i := 0; i < ms.Len(); i++ {
+			if f, ok := ms.At(i).Obj().(*types.Func); ok && f.Name() == name {
+				return f
+			}
+		}
+	}
+	return nil
 }
